@@ -112,8 +112,21 @@ def run(rep: Report, only_params: bool = False) -> None:
         pnames = ["rho_crit", "a", "v_free"]
         if params:
             pdict = {k: TV(E.S(f"p.{k}"), 1, False) for k in pnames}
+        pdict_before = dict(pdict) if pdict is not None else None
         r = CP.to_function(prog, net, compact=compact, more_out=False, parameters=pdict,
                            other={"T": TV(E.S("T"), 0, False)})
+        if params and variant == "merge" and not clamp and not same:
+            # the flow-output path also receives the declared parameters
+            net2 = CP.build_network(prog, st, same_names=same, variant=variant)
+            CP.set_opaque_states(net2, clamp_init=clamp)
+            pd2 = {k: TV(E.S(f"p.{k}"), 1, False) for k in pnames}
+            r2 = CP.to_function(prog, net2, compact=compact, more_out=True, parameters=pd2,
+                                other={"T": TV(E.S("T"), 0, False), "tau": TV(E.S("tau"), 0, False)})
+            ev = [e for e in r2[-1].events if e.kind in ("mutates-caller-container", "mutates-shared")]
+            same_dict = list(pd2) == pnames
+            rep.check(not ev and same_dict, "declared-parameters-untouched", label + " more_out", where,
+                      (ev[0].detail if ev else f"the caller's parameter dict now has keys {list(pd2)}"),
+                      key=f"paramdict|c={min(max(compact, 0), 2)}")
         if r[0] == "raise":
             rep.refuted("compiles", label, where, f"to_function raises {r[1].exc}: {r[1].msg}",
                         key=f"raise|{r[1].exc}|c={min(max(compact, 0), 2)}")
@@ -181,6 +194,17 @@ def run(rep: Report, only_params: bool = False) -> None:
         rep.check(not free, "no-free-symbols", label, where,
                   "casadi.Function is built with allow_free: symbols that are not arguments stay free",
                   key="allow_free")
+    if not only_params:
+        from .common import require_no_errors, wire_results
+
+        cks = [ck for ck in wire_results(rep, "flags", impls=("casadi",)) if ck.cfg.history or not ck.cfg.flags]
+        if require_no_errors(rep, cks):
+            for ck in cks:
+                ev = [e for p in ck.paths for e in p.events if e[0] in ("var-not-fresh", "memoised", "var-length",
+                                                                         "engine-state-shared")]
+                rep.check(not ev, "arguments-are-this-networks-variables", ck.cfg.label(),
+                          ev[0][1] if ev else "engine.var", ev[0][2] if ev else "",
+                          key=f"varfresh|{ev[0][0] if ev else ''}")
     rep.analysed["option_combinations"] = n
     rep.floor("option combinations", n, 6 if only_params else 30)
 
